@@ -28,6 +28,16 @@ impl<Req, Res, E> TimeoutFut<Req, Res, E> {
             r is Err ==> *final(tr) == (Trace { ev: old(tr).ev.push(Ev::TimedOut(self.d)), timer: Some(self.d), awaits_before_timer: old(tr).blocked, inner_dropped: true, ..*old(tr) }),
     { unimplemented!() }
 }
+/// tokio::time::timeout_at / sleep_until: the same timers given an absolute deadline; the duration that reaches the timer is the
+/// distance from the instant the deadline was computed at (no time passes in the model between computing it and arming the timer)
+#[verifier::external_body]
+pub fn timeout_at<Req, Res, E>(deadline: Instant, f: InnerFut<Req, Res, E>, clk: &Clock) -> (r: TimeoutFut<Req, Res, E>)
+    ensures r.d.nanos == (if deadline.t >= clk.now@ { (deadline.t - clk.now@) as u128 } else { 0 })
+{ unimplemented!() }
+#[verifier::external_body]
+pub fn sleep_until(deadline: Instant, clk: &Clock) -> (r: SleepFut)
+    ensures r.d.nanos == (if deadline.t >= clk.now@ { (deadline.t - clk.now@) as u128 } else { 0 })
+{ unimplemented!() }
 /// R17: the non-cancelling branch. `tokio::spawn(async move { B })` runs B in line (the detached task runs to completion:
 /// tokio, assumed) and `tokio::select!` is a nondeterministic choice between "the task's result has arrived" and "the timer fired".
 pub struct OneTx<Res, E> { pub p: core::marker::PhantomData<(Res, E)> }
